@@ -25,6 +25,10 @@ func (f verifColFeat) Name() string           { return "" }
 func (f verifColFeat) Description() string    { return "" }
 func (f verifColFeat) Location() feat.Feature { return nil }
 
+type verifRevFeat struct{ verifColFeat }
+
+func (f verifRevFeat) Orientation() feat.Orientation { return feat.Reverse }
+
 type verifColSet []feat.Feature
 
 func (s verifColSet) Features() []feat.Feature { return s }
@@ -128,7 +132,7 @@ func TestVerifBounded_C06_Columns(t *testing.T) {
 				}
 				verifOverwrite(dst)
 				if after := verifCols(src); after != before {
-					note("truncate", fmt.Sprintf("Truncate(dst, src, %d, %d) (qualities %v): overwriting the result changed the source: %q -> %q", start, end, q, before, after))
+					note("shared-truncate", fmt.Sprintf("Truncate(dst, src, %d, %d) (qualities %v): overwriting the result changed the source: %q -> %q", start, end, q, before, after))
 				}
 			}
 		}
@@ -142,7 +146,7 @@ func TestVerifBounded_C06_Columns(t *testing.T) {
 			}
 			verifOverwrite(dst)
 			if after := verifCols(src); after != before {
-				note("stitch", fmt.Sprintf("Stitch(dst, src, %v) (qualities %v): overwriting the result changed the source: %q -> %q", fs, q, before, after))
+				note("shared-stitch", fmt.Sprintf("Stitch(dst, src, %v) (qualities %v): overwriting the result changed the source: %q -> %q", fs, q, before, after))
 			}
 		}
 		// Join at either end
@@ -158,14 +162,41 @@ func TestVerifBounded_C06_Columns(t *testing.T) {
 			}
 			verifOverwrite(dst)
 			if after := verifCols(src); after != before {
-				note(map[int]string{seq.Start: "join-start", seq.End: "join-end"}[where], fmt.Sprintf("Join(dst, src, %d) (qualities %v): overwriting the result changed the source: %q -> %q", where, q, before, after))
+				note(map[int]string{seq.Start: "shared-join-start", seq.End: "shared-join-end"}[where], fmt.Sprintf("Join(dst, src, %d) (qualities %v): overwriting the result changed the source: %q -> %q", where, q, before, after))
 			}
 		}
 	}
-	for _, op := range []string{"truncate", "stitch", "join-start", "join-end"} {
+	// Compose with a reverse-oriented feature, and an alignment without columns as the source (recorded findings)
+	for _, q := range []bool{false, true} {
+		cases++
+		src, dst := mk(q, []string{"ac", "cg", "gt"}, []string{"nn"})
+		err := sequtils.Compose(dst.(sequtils.Sliceable), src.(sequtils.Sliceable), verifColSet{verifRevFeat{verifColFeat{0, 2}}})
+		if err != nil {
+			note("compose-reverse", fmt.Sprintf("Compose(dst, src, {[0,2) reverse}) on columns ac cg gt (qualities %v): %v", q, err))
+		} else if got := verifCols(dst); got != "gc tg " {
+			t.Fatalf("Compose reverse = %q, want %q", got, "gc tg ")
+		}
+		cases++
+		func() {
+			defer func() {
+				if r := recover(); r != nil {
+					note("empty-source", fmt.Sprintf("Truncate(dst, empty, 1, 1) with empty = Truncate(src, 1, 1) of a 3-column alignment (qualities %v): panic: %v", q, r))
+				}
+			}()
+			src, dst := mk(q, []string{"ac", "cg", "gt"}, []string{"nn"})
+			empty, _ := mk(q, []string{"nn"}, []string{"nn"})
+			if err := sequtils.Truncate(empty.(sequtils.Sliceable), src.(sequtils.Sliceable), 1, 1); err != nil {
+				t.Fatal(err)
+			}
+			if err := sequtils.Truncate(dst.(sequtils.Sliceable), empty.(sequtils.Sliceable), 1, 1); err != nil {
+				t.Fatalf("truncating the empty range of an empty alignment: %v", err)
+			}
+		}()
+	}
+	for _, op := range []string{"shared-truncate", "shared-stitch", "shared-join-start", "shared-join-end", "compose-reverse", "empty-source"} {
 		if shared[op] > 0 {
-			fmt.Printf("FINDING id=columns-shared-%s cases=%d example=%q\n", op, shared[op], example[op])
+			fmt.Printf("FINDING id=columns-%s cases=%d example=%q\n", op, shared[op], example[op])
 		}
 	}
-	fmt.Printf("BOUNDED name=C06.columns cases=%d nontrivial=%d exhaustive=true domain=%q\n", cases, cases, "2-row column-stored alignments of 5 columns with and without qualities: every Truncate range, 3 Stitch feature sets, Join at both ends; the result is overwritten and the source compared with its former self")
+	fmt.Printf("BOUNDED name=C06.columns cases=%d nontrivial=%d exhaustive=true domain=%q\n", cases, cases, "2-row column-stored alignments of 5 columns with and without qualities: every Truncate range, 3 Stitch feature sets, Join at both ends (the result is overwritten and the source compared with its former self), Compose with one reverse feature, Truncate from an alignment without columns")
 }
